@@ -351,3 +351,23 @@ CORPUS += [
     V("C19", "polynet-restore-takes-the-key-tail", _PLY, 'k.replace("policy.", "", 1): v', 'k.split("policy.", 1)[-1]: v', "C19.j"),
     V("C19", "eq-polynet-restore-removeprefix", _PLY, 'k.replace("policy.", "", 1): v', '(k[len("policy."):] if k.startswith("policy.") else k): v', None),
 ]
+
+# ---- round 7, second batch
+_SMT = S_ + "smtwtp/env.py"
+_JSE = S_ + "jssp/env.py"
+_AMD = "rl4co/models/zoo/am/decoder.py"
+_ATT = "rl4co/models/nn/attention.py"
+_WAIVE = '                | (td["open_route"].squeeze(-1) & (next_node == 0))'
+CORPUS += [
+    V("C07", "smtwtp-index-fill-across-the-batch", _SMT, '        available = td["action_mask"].scatter(\n            -1, current_job.unsqueeze(-1).expand_as(td["action_mask"]), 0\n        )', '        available = td["action_mask"].index_fill(-1, current_job, False)', "C07.l"),
+    V("C07", "jssp-wait-decided-by-the-whole-batch", _JSE, 'td["job_in_process"].any(1, keepdims=True)', 'td["job_in_process"].any()', "C07.l"),
+    V("C07", "ffsp-machine-table-loses-the-offset", _FF, "            self.stage_machine_table = permutations\n", "            self.stage_machine_table = self.machine_table\n            self.machine_table = permutations\n", "C07.m"),
+    V("C11", "top-k-clamped-by-the-poorest-row", _DEC, "    top_k = min(top_k, logits.size(-1))  # safety check", "    top_k = min(top_k, logits.size(-1), int(torch.isfinite(logits).sum(-1).min()))  # safety check", "C11.j"),
+    V("C11", "temperature-only-when-sampling", _DEC, "            temperature=self.temperature,", "            temperature=self.temperature if self.name == \"sampling\" else 1.0,", "C11.k"),
+    V("C13", "beam-best-is-the-first-beam", _DEC, "            return self._select_best_beam(aligned_logprobs, aligned_sequences, td, env)", "            bs_ = aligned_sequences.size(0) // self.beam_width\n            return aligned_logprobs[:bs_], aligned_sequences[:bs_], td[:bs_], env", "C13.h"),
+    V("C13", "cache-without-graph-context-for-multistart", _AMD, "        if self.use_graph_context:\n            graph_context = self.project_fixed_context(embeddings.mean(1))", "        if self.use_graph_context and not num_starts > 1:\n            graph_context = self.project_fixed_context(embeddings.mean(1))", "C13.i"),
+    V("C13", "inner-mask-union-over-the-beams", _ATT, "            # make mask the same number of dimensions as q\n            attn_mask = (\n                attn_mask.unsqueeze(1)\n", "            # make mask the same number of dimensions as q\n            attn_mask = (\n                attn_mask.any(dim=1, keepdim=True).unsqueeze(1)\n", "C13.j"),
+    V("C06", "mtvrp-checker-open-route-waiver-dropped", _MTE7, "                (curr_time <= gather_by_index(td[\"time_windows\"], next_node)[..., 1])\n" + _WAIVE, "                curr_time <= gather_by_index(td[\"time_windows\"], next_node)[..., 1]", "C06.u"),
+    V("C06", "mtvrp-checker-waiver-for-every-route-end", _MTE7, _WAIVE, '                | (next_node == 0)', "C06"),
+    V("C06", "eq-mtvrp-checker-waiver-commuted", _MTE7, _WAIVE, '                | ((next_node == 0) & td["open_route"].squeeze(-1))', None),
+]
